@@ -326,6 +326,7 @@ def _mode_tie_smallest(msg):
 
 MESSAGE_PREDICATES = {'flt_assert_small': _flt_assert_small,
                       'to_bits_type_error': _contains('Binary field or prime field required'),
+                      'subfield_assertion_at_output': _contains('AssertionError()'),
                       'array_no_bit_length': _contains("has no attribute 'bit_length'"),
                       'irreducible_reported_reducible': _contains('= 0, gfpx gives 1'),
                       'mode_tie_smallest': _mode_tie_smallest}
